@@ -262,7 +262,7 @@ theorem matchers_spec : IV.Gen.Matchers.table = specTable := rfl
 
 /-- no keyword arguments: no rows (documented) -/
 theorem keyword_search_no_kwargs (table : List (Str × Matcher)) (rows : List Row) (rkc : Bool) :
-    keywordSearch table rows rkc [] = [] := by simp [keywordSearch]
+    keywordSearch table rows rkc [] = [] := by simp [keywordSearch, keywordSearchTx]
 
 /-- the condition one keyword argument `kw=v` puts on a row: the keyword resolves (through the
     transformed keys of the rows) to a field the row has, and the matcher named by the suffix accepts
@@ -302,41 +302,174 @@ theorem searchTerms_spec (table : List (Str × Matcher)) (tx : Dict) (row : Row)
         simp only [Option.map_some, List.all_cons, hc, ih]
 
 /-- keyword_search returns EXACTLY the rows that satisfy every keyword condition, in their original
-    order (for at least one keyword argument; any rows, any `row_keys_change`) -/
-theorem keyword_search_exact (table : List (Str × Matcher)) (rows : List Row) (rkc : Bool)
+    order — for at least one keyword argument, any rows, and ANY transformation table (computed from
+    the key set in any iteration order, or taken from a parent's cache) -/
+theorem keyword_search_tx_exact (table : List (Str × Matcher)) (tx : Dict) (rows : List Row)
     (kwargs : List (Str × Str)) (hk : kwargs ≠ []) :
-    keywordSearch table rows rkc kwargs
-      = rows.filter (fun row => kwargs.all (fun kv => kwCond table (txKeys rows rkc) row kv.1 kv.2)) := by
+    keywordSearchTx table tx rows kwargs
+      = rows.filter (fun row => kwargs.all (fun kv => kwCond table tx row kv.1 kv.2)) := by
   have hk' : kwargs.isEmpty = false := by cases kwargs with
     | nil => exact absurd rfl hk
     | cons _ _ => rfl
-  unfold keywordSearch
+  unfold keywordSearchTx
   cases hr : rows.isEmpty with
   | true =>
     have : rows = [] := by simpa using hr
     simp [this]
   | false =>
     simp only [hk', Bool.or_self, Bool.false_eq_true, if_false]
-    cases hs : searchTerms (table.map (·.1)) (txKeys rows rkc) kwargs with
+    cases hs : searchTerms (table.map (·.1)) tx kwargs with
     | none =>
       simp only
       symm
       apply List.filter_eq_nil_iff.mpr
       intro row _
-      have := searchTerms_spec table (txKeys rows rkc) row kwargs
+      have := searchTerms_spec table tx row kwargs
       rw [hs] at this
       simp [this]
     | some terms =>
       simp only
       apply List.filter_congr
       intro row _
-      have := searchTerms_spec table (txKeys rows rkc) row kwargs
+      have := searchTerms_spec table tx row kwargs
       rw [hs] at this
       exact this
+
+/-- the same for the plain call (`parent=None`, key set in first-occurrence order) -/
+theorem keyword_search_exact (table : List (Str × Matcher)) (rows : List Row) (rkc : Bool)
+    (kwargs : List (Str × Str)) (hk : kwargs ≠ []) :
+    keywordSearch table rows rkc kwargs
+      = rows.filter (fun row => kwargs.all (fun kv => kwCond table (txKeys rows rkc) row kv.1 kv.2)) :=
+  keyword_search_tx_exact table _ rows kwargs hk
 
 example : keywordSearch IV.Gen.Matchers.table
     [[("fix-up path".toList, some "/a/b".toList)], [("fix-up path".toList, some "/c".toList)]] false
     [("fix_up_path__startswith".toList, "/a".toList)] = [[("fix-up path".toList, some "/a/b".toList)]] := by decide
+
+/-! ### keyword_search: which keyword names which heading -/
+
+/-- the transformation in the code (`key.replace(' ', '_').replace('-', '_')`) is the documented one:
+    only space and dash are written as '_', every other character — `%`, `/`, `.`, `(`, `:`, letters
+    of any script — stands for itself -/
+theorem txKey_eq_kwOf (k : Str) : txKey k = kwOf k := txKey_eq_kwOf_aux k
+
+example : txKey "Use% (KB)/s-1".toList = "Use%_(KB)/s_1".toList := by decide
+
+/-- the keyword `kw` names the LAST heading, in the iteration order `keys` of the key set, whose
+    documented keyword is `kw` (so clashes are resolved by that order: hash order in CPython), and
+    no heading when there is none -/
+theorem keyword_names_heading (keys : List Str) (kw : Str) :
+    dictGet (txKeysOf keys) kw = keys.reverse.find? (fun k => kwOf k = kw) :=
+  txKeysOf_get keys kw
+
+/-- a heading with neither space nor dash is its own keyword, and it is always recognised: it names
+    a heading with that same keyword — the heading itself when no other heading clashes with it,
+    whatever the iteration order -/
+theorem exact_heading_recognised (keys : List Str) (h : Str) (hm : h ∈ keys) (h1 : ' ' ∉ h) (h2 : '-' ∉ h) :
+    kwOf h = h ∧ (∃ h', dictGet (txKeysOf keys) h = some h' ∧ kwOf h' = h) ∧
+    ((∀ k ∈ keys, kwOf k = h → k = h) → dictGet (txKeysOf keys) h = some h) := by
+  have e := kwOf_self h h1 h2
+  refine ⟨e, ?_, ?_⟩
+  · rw [keyword_names_heading]
+    cases hf : keys.reverse.find? (fun k => kwOf k = h) with
+    | none =>
+      have := List.find?_eq_none.mp hf h (by simpa using hm)
+      simp [e] at this
+    | some h' =>
+      refine ⟨h', rfl, ?_⟩
+      have := List.find?_some hf
+      simpa using this
+  · intro huniq
+    rw [keyword_names_heading]
+    cases hf : keys.reverse.find? (fun k => kwOf k = h) with
+    | none =>
+      have := List.find?_eq_none.mp hf h (by simpa using hm)
+      simp [e] at this
+    | some h' =>
+      have h3 : kwOf h' = h := by simpa using List.find?_some hf
+      have h4 : h' ∈ keys := by simpa using List.mem_of_find?_eq_some hf
+      rw [huniq h' h4 h3]
+
+/-- in general the recognised keyword of a heading is `kwOf heading` -/
+theorem heading_keyword_recognised (keys : List Str) (h : Str) (hm : h ∈ keys) :
+    (∃ h', dictGet (txKeysOf keys) (kwOf h) = some h' ∧ kwOf h' = kwOf h) ∧
+    ((∀ k ∈ keys, kwOf k = kwOf h → k = h) → dictGet (txKeysOf keys) (kwOf h) = some h) := by
+  constructor
+  · rw [keyword_names_heading]
+    cases hf : keys.reverse.find? (fun k => kwOf k = kwOf h) with
+    | none =>
+      have := List.find?_eq_none.mp hf h (by simpa using hm)
+      simp at this
+    | some h' =>
+      refine ⟨h', rfl, ?_⟩
+      simpa using List.find?_some hf
+  · intro huniq
+    rw [keyword_names_heading]
+    cases hf : keys.reverse.find? (fun k => kwOf k = kwOf h) with
+    | none =>
+      have := List.find?_eq_none.mp hf h (by simpa using hm)
+      simp at this
+    | some h' =>
+      have h3 : kwOf h' = kwOf h := by simpa using List.find?_some hf
+      have h4 : h' ∈ keys := by simpa using List.mem_of_find?_eq_some hf
+      rw [huniq h' h4 h3]
+
+example : dictGet (txKeysOf ["Use%".toList, "I/O".toList, "fix-up path".toList]) "Use%".toList = some "Use%".toList ∧
+    dictGet (txKeysOf ["Use%".toList, "I/O".toList, "fix-up path".toList]) "fix_up_path".toList = some "fix-up path".toList ∧
+    dictGet (txKeysOf ["Use%".toList, "I/O".toList, "fix-up path".toList]) "Use_".toList = none := by decide
+
+/-- a keyword that is the documented keyword of no heading selects nothing -/
+theorem keyword_unknown_field_empty (table : List (Str × Matcher)) (keys : List Str) (rows : List Row)
+    (kwargs : List (Str × Str)) (kw v : Str) (hm : (kw, v) ∈ kwargs)
+    (hno : ∀ k ∈ keys, kwOf k ≠ (splitKeyword (table.map (·.1)) kw).1) :
+    keywordSearchTx table (txKeysOf keys) rows kwargs = [] := by
+  have hk : kwargs ≠ [] := by intro e; rw [e] at hm; simp at hm
+  rw [keyword_search_tx_exact table _ rows kwargs hk]
+  apply List.filter_eq_nil_iff.mpr
+  intro row _
+  have hnone : dictGet (txKeysOf keys) (splitKeyword (table.map (·.1)) kw).1 = none := by
+    rw [keyword_names_heading]
+    apply List.find?_eq_none.mpr
+    intro k hk'
+    have := hno k (by simpa using hk')
+    simpa using this
+  have : kwCond table (txKeysOf keys) row kw v = false := by simp [kwCond, hnone]
+  intro hall
+  have := List.all_eq_true.mp hall (kw, v) hm
+  simp_all
+
+/-- clashes: two headings with the same keyword are resolved by the iteration order of the key set
+    (the later one wins), so the answer depends on that order — in CPython on the string hash seed -/
+theorem keyword_clash_order_dependent :
+    dictGet (txKeysOf ["a b".toList, "a_b".toList]) "a_b".toList = some "a_b".toList ∧
+    dictGet (txKeysOf ["a_b".toList, "a b".toList]) "a_b".toList = some "a b".toList := by decide
+
+/-- repeated searches on the same `parent`: whatever the cache holds after earlier calls on the same
+    rows (nothing, or the table built from the key set), every call answers like an uncached search -/
+theorem cached_search_eq (table : List (Str × Matcher)) (order : List Str) (rows : List Row)
+    (cache : Option Dict) (hc : cache = none ∨ cache = some (txKeysOf order)) (kwargs : List (Str × Str)) :
+    (keywordSearchCached table cache order rows kwargs).1 = keywordSearchTx table (txKeysOf order) rows kwargs ∧
+    ((keywordSearchCached table cache order rows kwargs).2 = none ∨
+     (keywordSearchCached table cache order rows kwargs).2 = some (txKeysOf order)) := by
+  unfold keywordSearchCached
+  cases hb : (kwargs.isEmpty || rows.isEmpty) with
+  | true =>
+    simp only [if_true]
+    exact ⟨by simp [keywordSearchTx, hb], hc⟩
+  | false =>
+    rcases hc with rfl | rfl <;> simp
+
+theorem cached_sequence_eq (table : List (Str × Matcher)) (order : List Str) (rows : List Row) :
+    ∀ (kws : List (List (Str × Str))) (cache : Option Dict), (cache = none ∨ cache = some (txKeysOf order)) →
+      keywordSearchSeq table order rows cache kws = kws.map (keywordSearchTx table (txKeysOf order) rows) := by
+  intro kws
+  induction kws with
+  | nil => intro _ _; rfl
+  | cons kw rest ih =>
+    intro cache hc
+    obtain ⟨h1, h2⟩ := cached_search_eq table order rows cache hc kw
+    simp only [keywordSearchSeq, List.map_cons, h1]
+    rw [ih _ h2]
 
 /-! ### IniConfigFile -/
 
